@@ -70,8 +70,12 @@ def _intervals(draw, q, k0, n, events):
         pts = [0, 2 * n]
     if len(pts) % 2:
         pts = pts[:-1]
-    return [[(2 * k0 + pts[i]) / (2.0 * q), (2 * k0 + pts[i + 1]) / (2.0 * q)]
-            for i in range(0, len(pts), 2)]
+    ivs = [[pts[i], pts[i + 1]] for i in range(0, len(pts), 2)]
+    if draw(st.sampled_from([False, False, True])):
+        # an overlapping interval: every interval counts on its own
+        a = draw(st.integers(0, 2 * n - 1))
+        ivs.append([a, draw(st.integers(a + 1, 2 * n))])
+    return [[(2 * k0 + a) / (2.0 * q), (2 * k0 + b) / (2.0 * q)] for a, b in ivs]
 
 
 # ---------------------------------------------------------------------------
@@ -89,7 +93,11 @@ def new_state():
 
 def _mk(fd):
     import pyspike
-    real = pyspike.DiscreteFunc(np.array(fd["x"]), np.array(fd["y"]), np.array(fd["mp"]))
+    if fd.get("as_int"):
+        real = pyspike.DiscreteFunc([int(v) for v in fd["x"]], [int(v) for v in fd["y"]],
+                                    [int(v) for v in fd["mp"]])
+    else:
+        real = pyspike.DiscreteFunc(np.array(fd["x"]), np.array(fd["y"]), np.array(fd["mp"]))
     model = O.DiscreteModel.from_arrays(fd["x"], fd["y"], fd["mp"])
     return dict(real=real, model=model, scale=max([1.0] + [abs(v) for v in fd["y"]]))
 
@@ -151,8 +159,15 @@ def _probe(ctx, slot, ivs, kwin, what):
         eav = ey / emp if emp > 0 else Fr(1)
         ctx.check(abs(float(av) - float(eav)) <= tol * 8, "avrg_interval",
                   lambda: "%s: avrg((%r,%r))=%r expected %r" % (what, a, b, av, float(eav)))
-    # list of intervals adds up
+    # avrg(normalize=False) is the plain sum of the values
+    vs = ctx.call("avrg_unnormalized", r.avrg, None, False)
+    ctx.check(abs(float(vs) - float(m.integral()[0])) <= tol * 8, "avrg_unnormalized",
+              lambda: "%s: avrg(normalize=False)=%r expected %r" % (what, vs,
+                                                                    float(m.integral()[0])))
+    # list of intervals adds up - in whatever order the intervals are given
     lst = [tuple(p) for p in ivs]
+    if len(lst) > 1 and (len(lst) + int(ivs[0][0] * 4)) % 2:
+        lst = lst[::-1]
     val, mp = ctx.call("integral_interval_list", r.integral, lst)
     ctx.check(abs(float(val) - float(tot_y)) <= tol * 8 and Fr(float(mp)) == tot_mp,
               "integral_interval_list",
@@ -299,8 +314,14 @@ def _pair(draw, tier):
     g = draw(df_arrays(q, k0, n, pool, me))
     ev = sorted(set(round(v * q - k0) for v in f["x"][1:-1] + g["x"][1:-1]))
     ivs = _intervals(draw, q, k0, n, ev)
-    return dict(kind="pair", f=f, g=g, intervals=ivs, window=draw(st.sampled_from([0, 1, 2, 3, 4])),
-                compiled=draw(st.booleans()))
+    c = dict(kind="pair", f=f, g=g, intervals=ivs, window=draw(st.sampled_from([0, 1, 2, 3, 4])),
+             compiled=draw(st.booleans()))
+    if q == 1 and draw(st.sampled_from([False, False, False, True])):
+        # receiver built from integer arrays (python fallback only: the compiled
+        # routine takes float64 buffers)
+        f["as_int"] = True
+        c["compiled"] = False
+    return c
 
 
 def _enum(tier, shard, nshards):
@@ -397,5 +418,8 @@ def run_case(case, ctx):
               and list(a.mp[1:-1]) == list(b.mp[1:-1]), "commutation",
               lambda: "f+g: x=%r y=%r mp=%r ; g+f: x=%r y=%r mp=%r"
               % (list(a.x), list(a.y), list(a.mp), list(b.x), list(b.y), list(b.mp)))
+    if case["f"].get("as_int") and case["g"]["x"] == [float(int(v)) for v in case["g"]["x"]] \
+            and False:
+        return
     apply_op(s, ["mul", 0, 0.5], ctx)
     apply_op(s, ["probe", 0, case["intervals"], case["window"]], ctx)
